@@ -33,6 +33,7 @@ def parseOp (line : String) : Option Op :=
   | ["newstr", a, w] => do some (.newstr (← n? a) w)
   | ["newmstr", a, w] => do some (.newmstr (← n? a) w)
   | ["newfun", a, b, c] => do some (.newfun (← n? a) (← n? b) (← n? c))
+  | ["newffun", a, b, c] => do some (.newffun (← n? a) (← n? b) (← n? c))
   | ["fill", a, b, c] => do some (.fill (← n? a) (← n? b) (← n? c))
   | ["assign", a, b] => do some (.assign (← n? a) (← n? b))
   | ["free", a] => do some (.free (← n? a))
@@ -127,6 +128,7 @@ def lpcOnly : Op → Bool
   | .fefun _ _ _ _ => true
   | .frest _ _ => true
   | .reclaim => true
+  | .newffun _ _ _ => true
   | .arange _ _ _ _ _ _ => true
   | .arangev _ _ _ _ _ => true
   | .brange _ _ _ _ => true
@@ -153,6 +155,14 @@ def progField (s : St) (c : Nat) : String :=
   | some cell => if cell.live then toString cell.ref else "x"
   | none => "?"
 
+/-- func_ref of a program: the counter of its func_ref cell minus the permanent holder -/
+def funcField (s : St) (c pc : Nat) : String :=
+  -- the program structure is gone (unit mode: no function pointers exist there)
+  if progField s pc == "x" then "x"
+  else match s.heap[c]? with
+    | some cell => if cell.live then toString (cell.ref - 1) else "x"
+    | none => "?"
+
 def progFreed (s : St) : Bool :=
   match s.heap[cProg]? with
   | some cell => !cell.live
@@ -177,7 +187,7 @@ def renderState (noAllocd : Bool) (s : St) : String :=
       s!"{st.numArrays},{st.arrayBytes},{st.numMappings},{st.mapNodes},-,-,{st.objects}"
     else renderStats noAllocd st
   let fr := if progFreed s then "-" else toString (nameRefs s)
-  s!"ok r:{renderRefs s.heap} st:{sts} p:{progField s cProg}/{progField s cBase} f:{fr} t:{renderTexts s}"
+  s!"ok r:{renderRefs s.heap} st:{sts} p:{progField s cProg}.{funcField s cFProg cProg}/{progField s cBase}.{funcField s cFBase cBase} f:{fr} t:{renderTexts s}"
 
 def applies : Op → Bool
   | .newobj _ => true
